@@ -76,13 +76,17 @@ def obligations(tier):
                             '(same hash) and both are inside each other'))
 
     # ---- (2) published scopes
-    for ident in (0, 1):
-        obs.append(Ob(f'C16.published.inside.{"fallback-id" if ident == 0 else "root-only-id"}', 'harness.C16', 'published_inside',
+    id_names = ('fallback-id', 'root-only-id', 'site-id-first', 'site-id-last')
+    id_text = ('fallback instance identifier written by update_from_sdc_location',
+               'InstanceIdentifier(root="sdc.ctxt.loc.detail") without extension',
+               'a site-specific InstanceIdentifier (other root) in front of the fallback one: two location scopes are published',
+               'a site-specific InstanceIdentifier (other root) behind the fallback one: two location scopes are published')
+    for ident in (0, 1, 2, 3):
+        obs.append(Ob(f'C16.published.inside.{id_names[ident]}', 'harness.C16', 'published_inside',
                       bind={'ident': ident}, timeout=t, functions=F_PUB, stubs=S_MDIB,
                       bounds='per element: absent / present and specified by the enclosing location / present and left open (3^6 patterns, '
                              'at least one present); 2 value styles; Identification = '
-                             + ('fallback instance identifier written by update_from_sdc_location' if ident == 0 else
-                                'InstanceIdentifier(root="sdc.ctxt.loc.detail") without extension'),
+                             + id_text[ident],
                       claim='the published service is returned by filter_services_inside of its own location, of every enclosing '
                             'location and of the unrestricted location; a service without scopes never is'))
     obs.append(Ob('C16.published.after-update', 'harness.C16', 'published_after_update', timeout=t, functions=F_PUB, stubs=S_MDIB,
